@@ -451,3 +451,83 @@ STUBS = {
     "hex": "hexlify/unhexlify/str as an abstract pair (2 digits per byte)",
     "random": "SymRandom (fresh symbolic value per call)",
 }
+
+
+# ---------------------------------------------------------------------------- opaque floats (statistics code paths)
+class OpaqueFloat:
+    """A float whose value is not modelled: arithmetic yields OpaqueFloat, comparisons are unsupported.  Lets statistics /
+    formatting code run symbolically so that its EFFECTS on the structure (none expected) can be observed (C19)."""
+
+    def _op(self, *a):
+        return OpaqueFloat()
+    __add__ = __radd__ = __sub__ = __rsub__ = __mul__ = __rmul__ = __truediv__ = __rtruediv__ = __pow__ = __rpow__ = __neg__ = __abs__ = _op
+
+    def __float__(self):
+        raise Unsupported("value of an opaque float")
+
+    def _cmp(self, o):
+        raise Unsupported("comparison of an opaque float")
+    __lt__ = __le__ = __gt__ = __ge__ = _cmp
+
+    def __format__(self, spec):
+        return "?"
+
+    def __repr__(self):
+        return "<opaque float>"
+
+
+def _opaque_ratio_ops():
+    from .engine import SRatio
+
+    def op(self, *a):
+        return OpaqueFloat()
+    for n in ("__add__", "__radd__", "__sub__", "__rsub__", "__mul__", "__rmul__", "__truediv__", "__rtruediv__", "__neg__"):
+        setattr(SRatio, n, op)
+    SRatio.__format__ = lambda self, spec: "?"
+
+
+_opaque_ratio_ops()
+
+
+class _FloatMeta(type):
+    def __instancecheck__(cls, x):
+        return isinstance(x, (builtins.float, OpaqueFloat))
+
+    def __call__(cls, *a, **k):
+        from .engine import SRatio
+        if a and isinstance(a[0], (SInt, OpaqueFloat, SRatio)):
+            return OpaqueFloat()
+        return builtins.float(*a, **k)
+
+
+class FloatShim(metaclass=_FloatMeta):
+    pass
+
+
+class MathStub:
+    """math module whose transcendental functions accept opaque arguments"""
+
+    def __getattr__(self, n):
+        import math
+        f = getattr(math, n)
+        if not callable(f):
+            return f
+
+        def g(*a):
+            from .engine import SRatio
+            if any(isinstance(x, (OpaqueFloat, SInt, SRatio)) for x in a):
+                return OpaqueFloat()
+            return f(*a)
+        return g
+
+
+class _IntMeta2(_IntMeta):
+    def __call__(cls, *a, **k):
+        if a and isinstance(a[0], OpaqueFloat):
+            n = next(engine._UNIQ)
+            return engine.CUR.int(f"opaque_int{n}", -2 ** 63, 2 ** 63)
+        return super().__call__(*a, **k)
+
+
+class IntShimOpaque(metaclass=_IntMeta2):
+    pass
